@@ -13,8 +13,18 @@ RANGE = {"u8": (0, 255), "i8": (-128, 127), "u16": (0, 65535), "i16": (-32768, 3
 def gen_discr(rng, lo, hi):
     """A constant expression (source, value) with value in [lo, hi]."""
     for _ in range(50):
-        k = rng.below(9)
-        if k == 0:
+        k = rng.below(12)
+        if k >= 9 and lo != 0:
+            k = rng.below(9)
+        # untyped constants whose value depends on the width of the repr type, under operators that are not modular: they
+        # mean what they mean *in the repr type*, also when an implicit discriminant is rebuilt from them (seed C12-j)
+        if k == 9:
+            b = 1 + rng.below(4); v = hi >> b; s = f"!0 >> {b}"
+        elif k == 10:
+            a = 2 + rng.below(7); v = hi // a; s = f"!0 / {a}"
+        elif k == 11:
+            a = 50 + rng.below(150); v = hi % a; s = f"!0 % {a}"
+        elif k == 0:
             v = lo + rng.below(min(hi - lo, 300) + 1); s = str(v) if v >= 0 else f"-{-v}"
         elif k == 1:
             a, b = 1 + rng.below(3), rng.below(6); v = a << b; s = f"{a} << {b}"
@@ -23,6 +33,8 @@ def gen_discr(rng, lo, hi):
         elif k == 3:
             a, b = rng.below(10), rng.below(10); v = (a + b) * 3; s = f"({a} + {b}) * 3"
         elif k == 4:
+            if lo == 0:
+                continue        # rustc: unary minus does not apply to an unsigned type, not even in `-0` (E0600)
             a = rng.below(100); v = -a; s = f"-{a}"
         elif k == 5:
             a, b = 64 + rng.below(60), rng.below(4); v = a >> b; s = f"{a} >> {b}"
